@@ -317,6 +317,74 @@ theorem key_injective (n1 n2 : List Char) (q1 q2 : Nat) (r1 r2 : Route) (hn1 : '
   obtain ⟨h1, h2, h3⟩ := scopedKey_inj hn1 hn2 h
   exact ⟨h1, h2, scopeOf_inj h3⟩
 
+/-- **Question class.**  The key of a request separates name, type, **class** and route: two requests
+(names without `|`) share a response-cache key only if all four agree (names up to ASCII case and
+trailing dot).  For class IN the key is the plain `responseKey`. -/
+theorem request_key_injective (n1 n2 : List Char) (q1 q2 c1 c2 : Nat) (r1 r2 : Route) (hn1 : '|' ∉ n1) (hn2 : '|' ∉ n2)
+    (h : requestKey n1 q1 c1 r1 = requestKey n2 q2 c2 r2) : canon n1 = canon n2 ∧ q1 = q2 ∧ c1 = c2 ∧ r1 = r2 :=
+  requestKey_inj hn1 hn2 h
+
+theorem request_key_class_IN (n : List Char) (q : Nat) (r : Route) : requestKey n q classIN r = responseKey n q r :=
+  requestKey_IN n q r
+
+/-- **A request is a piece of history.**  `World.ask` (the model of `HandleWithResponseWriter_` on one
+route, tied by the request-path stream) is `run` on the operations `askOps` lists, so every theorem
+of this file about histories speaks about requests too.  All those operations use the key derived
+from the request's own question and route; a question of a class other than IN never stores
+anything (its answer is not cached), and a reply that is not cacheable is not stored either. -/
+theorem request_touches_only_its_key (w : World) (t : Int) (name : List Char) (qtype qclass : Nat) (r : Route)
+    (rep : Reply) (g : Nat) :
+    (w.ask t name qtype qclass r rep g) = run w (askOps w t name qtype qclass r rep g) ∧
+    (∀ op ∈ askOps w t name qtype qclass r rep g,
+      (∃ now ign, op = .lookup now (requestKey name qtype qclass r) ign) ∨
+      (∃ now, op = .refreshDone now (requestKey name qtype qclass r)) ∨
+      (op = .insert (t + SEC) (requestKey name qtype qclass r) (fqdn name) qtype (normTtl rep.nAns rep.rttl)
+              rep.ans rep.nAns rep.ns false ∧ qclass = classIN ∧ rep.rcode = 0)) := by
+  refine ⟨rfl, ?_⟩
+  intro op hop
+  have hstore : ∀ o ∈ (if cacheable true 1 rep.rcode qclass = true then
+      [Op.insert (t + SEC) (requestKey name qtype qclass r) (fqdn name) qtype (normTtl rep.nAns rep.rttl)
+        rep.ans rep.nAns rep.ns false] else []),
+      o = .insert (t + SEC) (requestKey name qtype qclass r) (fqdn name) qtype (normTtl rep.nAns rep.rttl)
+              rep.ans rep.nAns rep.ns false ∧ qclass = classIN ∧ rep.rcode = 0 := by
+    intro o ho
+    split at ho
+    · rename_i hc
+      simp only [List.mem_singleton] at ho
+      simp only [cacheable, Bool.and_eq_true, beq_iff_eq, Bool.true_and] at hc
+      exact ⟨ho, hc.2, hc.1.2⟩
+    · simp at ho
+  have hrep : ∀ (now : Int) o, o ∈ List.replicate g (Op.lookup now (requestKey name qtype qclass r) false) →
+      ∃ now ign, o = .lookup now (requestKey name qtype qclass r) ign :=
+    fun now o ho => ⟨now, false, (List.mem_replicate.mp ho).2⟩
+  unfold askOps at hop
+  simp only at hop
+  split at hop
+  · split at hop
+    · rcases List.mem_append.mp hop with hop | hop
+      · exact Or.inl (hrep _ _ hop)
+      · rcases List.mem_append.mp hop with hop | hop
+        · exact Or.inr (Or.inr (hstore _ hop))
+        · simp only [List.mem_singleton] at hop; exact Or.inr (Or.inl ⟨_, hop⟩)
+    · exact Or.inl (hrep _ _ hop)
+  · rcases List.mem_append.mp hop with hop | hop
+    · exact Or.inl (hrep _ _ hop)
+    · rcases List.mem_append.mp hop with hop | hop
+      · exact Or.inr (Or.inr (hstore _ hop))
+      · exact Or.inl (hrep _ _ hop)
+
+-- non-vacuity: a CH-class request is forwarded and not cached; the IN request after it is forwarded too
+example :
+    let c := Cfg.normalize true 60 0 []
+    let a1 := (start c).ask 0 ['v'] 16 3 (.asIs none) ⟨300, 7, 1, 0, 0⟩
+    let a2 := a1.1.ask (5 * SEC) ['v'] 16 1 (.asIs none) ⟨300, 8, 1, 0, 0⟩
+    let a3 := a2.1.ask (9 * SEC) ['v'] 16 1 (.asIs none) ⟨300, 9, 1, 0, 0⟩
+    a1.2.map LRes.view = [none, none] ∧ a1.1.st.entries.length = 0 ∧
+    a2.2.map LRes.view = [none, none, some (false, 300, 8, false)] ∧
+    a3.2.map LRes.view = [some (false, 300, 8, false)] := by
+  intro c a1 a2 a3
+  refine ⟨by decide, by decide, by decide, by decide⟩
+
 /-- the family key used by reject-routing (`RemoveDnsRespCacheFamily`) is the unscoped key -/
 theorem base_of_response_key (n : List Char) (q : Nat) (r : Route) (hn : '|' ∉ n) :
     baseKey (responseKey n q r) = cacheKey n q :=
